@@ -204,4 +204,16 @@ PROPS.update({
     },
 })
 
+PROPS.update({
+    "C10": {
+        "title": "Verifiers decide exactly the published relation",
+        "rule": GEN + "For each accepting single-point transcript (1..3 polynomials with bounds / hiding) the library verifier and an independent reference verifier (written from the published relation: KZG pairing equation and its Marlin / Sonic / PST13 / multilinear-PST / streaming forms; IPA round-commitment and final-key equations via the harness's own IPA code; Hyrax equations (13), (14) plus 'the evaluation commitment opens to the claimed value'; Ligero / Brakedown transcript-derived indices, independent Merkle authentication, column and well-formedness consistency, <v,a> = value, shape constraints) are run on clones of one recording sponge, on: the honest transcript; every single-component substitution (each commitment part, degree-bound label, value, point coordinate, every proof field / element incl. every IPA round element and Merkle sibling, every verifier-key element with its prepared twin); compensated double faults that keep the relation true (C+dG with v+d; W+wG with C+(w/xi)(beta G - zG)). Oracle: library accepts <=> reference relation holds (Err / panic count as not accepting)." + DIST,
+        "required_classes": ["honest-satisfies-relation", "compensated-fault-agrees", "single-fault-agrees[value]", "single-fault-agrees[commitment]", "single-fault-agrees[point]", "single-fault-agrees[proof-w]", "single-fault-agrees[vk-h]"],
+        "technique": "runtime monitoring: differential oracle against independent reference verifiers sharing only the recorded transcript",
+        "level_text": "Equality of two decision procedures over the whole single-fault neighbourhood of generated honest transcripts (20-60 substitutions per transcript) plus relation-preserving double faults, which exercises the accept side beyond honest proofs.",
+        "design_ref": "5 (C10)",
+        "assumptions": TRUST + ["the reference verifiers are models; disagreements are triaged before being reported (two model bugs were found and fixed this way, see DESIGN.md section 7)"],
+    },
+})
+
 ALL_IDS = ["C%02d" % i for i in range(1, 20)]
